@@ -7,7 +7,7 @@ TRUSTED = ["C16: tools/histlib.py oracle (failed calls are ignored by the model)
 
 def capacity_case(rng):
     """drive one structure to its capacity so that calls start failing, then keep using the writer"""
-    k = rng.choice(["group32", "heap", "header", "dense", "afterclose"])
+    k = rng.choice(["group32", "heap", "header", "dense", "afterclose", "heapfull"])
     ops = [{"op": "mkds", "path": "/keep", "dtype": "int32", "dims": [2]}, {"op": "write", "path": "/keep", "val": "0100000002000000"},
            {"op": "setattr", "path": "/keep", "name": hx("k"), "kind": "str", "val": hx("kept")}]
     if k == "group32":
@@ -28,6 +28,20 @@ def capacity_case(rng):
             ops.append({"op": "setattr", "path": "/keep", "name": hx("a%d" % i), "kind": kk, "val": v.hex()})
         for i in range(5):
             ops.append({"op": "delattr", "path": "/keep", "name": hx("a%d" % rng.randint(0, 150))})
+    elif k == "heapfull":
+        # dense attribute storage filled to the capacity of its single 64 KiB heap block: the insert that no longer fits is refused
+        # when the heap is written back; nothing written before that point may survive the refusal (seeded change C16-c: the index
+        # was written before the heap).  Then the refused name is retried with a value that fits, and the object keeps being used.
+        for i in range(9):
+            ops.append({"op": "setattr", "path": "/keep", "name": hx("s%d" % i), "kind": "i32", "val": "%08x" % i})
+        big = rng.choice([8000, 8000, 12000, 30000])
+        nbig = 65536 // big + 2
+        for i in range(nbig):
+            ops.append({"op": "setattr", "path": "/keep", "name": hx("big%d" % i), "kind": "str", "val": (bytes([65 + i % 26]) * (big - rng.choice([0, 1, 7]))).hex()})
+        ops.append({"op": "setattr", "path": "/keep", "name": hx("big%d" % (nbig - 1)), "kind": "str", "val": hx("fits")})
+        ops.append({"op": "setattr", "path": "/keep", "name": hx("s3"), "kind": "str", "val": (b"Z" * rng.choice([20, 3000])).hex()})   # size-changing upsert on a full heap
+        ops.append({"op": "delattr", "path": "/keep", "name": hx("big0")})
+        ops.append({"op": "setattr", "path": "/keep", "name": hx("late"), "kind": "i8", "val": "07"})
     else:
         ops += [{"op": "close"}, {"op": "close"}, {"op": "mkds", "path": "/late", "dtype": "int32", "dims": [1]},
                 {"op": "write", "path": "/keep", "val": "0300000004000000"}, {"op": "setattr", "path": "/keep", "name": hx("z"), "kind": "i8", "val": "01"},
